@@ -188,6 +188,49 @@ Example C19_frozen_drops_out_below_votes_diff :
   is_active (run cfg_diff8 s [OBegin 4 60 []; OEnd q4 []]).1 4 = false.
 Proof. vm_compute. repeat split; reflexivity. Qed.
 
+(* (8) a decision is taken once: after an EndBlock that ran the tracker, a tracked request that is
+   still open has votes that cross neither share — outside the trigger [guilty_without_record]
+   (YES votes cross, but the accused has no validator record one version back) ... *)
+Theorem C19_crossing_requests_are_closed_partial : forall c s q ord s' ev id r,
+  end_block c s q ord = (s', ev) -> 1 < height s -> (elect c s q).2 <> 0 ->
+  0 < voteDec c -> 0 < allegDec c ->
+  id ∈ tracker s -> reqs s' !! id = Some r ->
+  let req := required_x c (elect c s q).2 in
+  guilty_without_record c q req r = false ->
+  verdict_x c (count_choice YES (r_votes r)) (count_choice NO (r_votes r)) req = VOTING.
+Proof.
+  intros c s q ord s' ev id r H Hh Ha Hv Hd Hid Hr req G.
+  destruct (end_block_closes c s q ord s' ev id r H Hh Ha Hv Hd Hid Hr) as [V|T]; [exact V|].
+  fold req in T. congruence.
+Qed.
+Print Assumptions C19_crossing_requests_are_closed_partial.
+
+Definition q3 : list (Z * Z) := [(1, 3000000); (2, 2999000); (3, 2998000)].
+(* ... and is false inside it: validator 4 unstaked everything (its record is gone from the queue),
+   two YES votes of three active validators cross 50% of ceil(3*50%) = 2; EndBlock 8 freezes it and
+   leaves the request open with no verdict event; EndBlock 9 freezes it again from the same votes:
+   the freeze height and time move every block, so FrozenAt + ValidatorReleaseTime is never reached,
+   and staking/withdrawing stay rejected.  Known finding C19.guilty_without_validator_record,
+   reproduced on the real code (findings/C19_guilty_without_validator_record.json). *)
+Theorem C19_crossing_requests_are_closed_refuted_1 : exists c stk ops q id r,
+  let s := (run c (init_with stk) ops).1 in
+  let '(s', ev) := end_block c s q [] in
+  1 < height s /\ (elect c s q).2 <> 0 /\ id ∈ tracker s /\ reqs s' !! id = Some r /\
+  guilty_without_record c q (required_x c (elect c s q).2) r = true /\
+  verdict_x c (count_choice YES (r_votes r)) (count_choice NO (r_votes r)) (required_x c (elect c s q).2) = GUILTY /\
+  ev = [EvFrozen 4 BYZ 8] /\ (l_fh <$> susp s' !! 4) = Some 8 /\
+  let r2 := run c s' [OBegin 9 86500 []; OStake 0 4 true 5000; OStake 2 4 true 0; OEnd q []] in
+  r2.2 = [EvTx false; EvTx false; EvFrozen 4 BYZ 9] /\ (l_fat <$> susp r2.1 !! 4) = Some 86500 /\
+  is_Some (reqs r2.1 !! id).
+Proof.
+  exists cfg50, q3,
+    [OBegin 2 30 []; OEnd q3 []; OBegin 8 120 []; OAllege 0 1 4 8; OVote 0 1 YES; OVote 0 2 YES],
+    q3, 0, (mkReq 1 4 8 VOTING [(1, YES); (2, YES)]).
+  vm_compute. repeat split; try reflexivity; try discriminate; try lia.
+  - apply elem_of_list_singleton. reflexivity.
+  - eexists. reflexivity.
+Qed.
+
 (* non-vacuity: the hypotheses of the theorems above are met by a concrete history in which a
    verdict is reached with votes of distinct active validators, the stake drops by the penalty and
    the bounty program is credited *)
